@@ -793,13 +793,15 @@ class C11(Prop):
                     literal.append('{%s}' % name)
                     kinds.add('escaped')
                 elif k < 0.9:
-                    pat = rng.choice(['', table[name].split('\n')[0][:3] + '.*', '.*', 'zzz', '[a-z]+'])
-                    keep = re.match('^%s$' % pat, table[name]) is not None
+                    # (the last one matches everything up to the last visible character: not the whole of a value that ends in a line
+                    # break - the match is a full-string match)
+                    pat = rng.choice(['', table[name].split('\n')[0][:3] + '.*', '.*', 'zzz', '[a-z]+', '[\\s\\S]*\\S'])
+                    keep = re.match('^%s\\Z' % pat, table[name]) is not None
                     inv, val = '{%s=%s}' % (name, pat), ('' if keep else None)
                     kinds.add('inclusion')
                 else:
-                    pat = rng.choice(['', '.*', 'zzz'])
-                    keep = re.match('^%s$' % pat, table[name]) is None
+                    pat = rng.choice(['', '.*', 'zzz', '[\\s\\S]*\\S'])
+                    keep = re.match('^%s\\Z' % pat, table[name]) is None
                     inv, val = '{%s!%s}' % (name, pat), ('' if keep else None)
                     kinds.add('exclusion')
                 w1, w2 = plain(rng, 1, 2), plain(rng, 1, 2)
